@@ -16,11 +16,13 @@ pub enum CodecId {
     Tri,
     /// hand-written user codec, 7 bits
     Sept,
+    /// hand-written user codec, 8 bits, codes different from the ASCII of the display characters
+    Oct,
 }
 
 /// the seven built-in codecs plus two hand-written user codecs of widths 3 and 7 bits: the generic
 /// sequence code must not depend on the width being one of 1, 2, 4, 5, 6, 8
-pub const ALL_CODECS: [CodecId; 9] = [
+pub const ALL_CODECS: [CodecId; 10] = [
     CodecId::Dna,
     CodecId::Iupac,
     CodecId::Amino,
@@ -30,6 +32,7 @@ pub const ALL_CODECS: [CodecId; 9] = [
     CodecId::Degen,
     CodecId::Tri,
     CodecId::Sept,
+    CodecId::Oct,
 ];
 
 pub const BUILTIN_CODECS: [CodecId; 7] = [CodecId::Dna, CodecId::Iupac, CodecId::Amino, CodecId::Text, CodecId::MDna, CodecId::MIupac, CodecId::Degen];
@@ -46,6 +49,7 @@ impl CodecId {
             CodecId::Degen => "degenerate",
             CodecId::Tri => "custom3",
             CodecId::Sept => "custom7",
+            CodecId::Oct => "custom8",
         }
     }
     pub fn model(self) -> &'static Model {
@@ -62,6 +66,7 @@ impl CodecId {
             CodecId::Degen => 1,
             CodecId::Tri => 3,
             CodecId::Sept => 7,
+            CodecId::Oct => 8,
         }
     }
 }
@@ -400,6 +405,15 @@ fn build(id: CodecId) -> Model {
             id,
             bits: 7,
             syms: vec![(0, b'*'), (1, b'A'), (2, b'C'), (4, b'G'), (8, b'T'), (16, b'R'), (32, b'Y'), (64, b'K'), (77, b'S'), (100, b'W'), (126, b'q'), (127, b'M')],
+            alts: vec![],
+            ascii_alias: vec![],
+            all_bits: false,
+            comp: None,
+        },
+        CodecId::Oct => Model {
+            id,
+            bits: 8,
+            syms: vec![(1, b'+'), (2, b'-'), (3, b'B'), (0x80, b'?'), (0xC1, b'a'), (0xFF, b'Z')],
             alts: vec![],
             ascii_alias: vec![],
             all_bits: false,
